@@ -739,6 +739,28 @@ fn run_all(ctx: &Ctx) -> i32 {
             }
         }
     }
+    // functions with the same parameters and body whose captured name sets differ (every pair of subsets
+    // of three names, bound by a do-block or by a factory parameter) under every comparing operation
+    {
+        let names = ["a", "b", "c"];
+        let subsets: Vec<Vec<&str>> = (0..8u32).map(|m| names.iter().enumerate().filter(|(i, _)| m & (1 << i) != 0).map(|(_, n)| *n).collect()).collect();
+        let mk = |fname: &str, sub: &Vec<&str>, val: usize| -> String {
+            let binds: String = sub.iter().map(|n| format!("  {} = {}\n", n, val)).collect();
+            format!("{} = do {{\n{}  return x => [a, b, c, x]\n}}", fname, binds)
+        };
+        let ops = ["f == g", "f != g", "f .== g", "includes([f], g)", "unique([f, g, f])", "sort([g, f])", "[f] == [g]", "{k: f} == {k: g}", "count_by([f, g], h => to_string(h == f))"];
+        for (i, s1) in subsets.iter().enumerate() {
+            for (j, s2) in subsets.iter().enumerate() {
+                for same_values in [true, false] {
+                    let defs = format!("{}\n{}", mk("f", s1, 1), mk("g", s2, if same_values { 1 } else { 2 }));
+                    if thorough || (i * 8 + j) % 3 == 0 || s1.len() == s2.len() {
+                        texts.push(("extras".into(), format!("{}\n{}", defs, ops.join("\n"))));
+                    }
+                }
+            }
+        }
+        texts.push(("extras".into(), "mk1 = a => (x => [a, b, x])\nmk2 = b => (x => [a, b, x])\nf = mk1(1)\ng = mk2(1)\nf == g\nunique([f, g])\nincludes([g], f)".to_string()));
+    }
     // loops whose length comes from the input
     for t in ["1e15!", "9007199254740992!", "170!", "171!", "[1e15]!", "range(1e15)", "range(0, 4294967296)", "round(1, 1e15)", "round(1e300, 400)", "random(1e30)", "chunk([1], 1e30)", "slice([1], 0, 1e30)", "[1, 2][1e30]", "\"ab\"[(-1e30)]", "2 ^ 1e30", "1e308 * 10", "0 / 0", "format(\"{}{}{}\", 1)", "format(\"{\", 1)", "format(\"{0}{9}\", 1)", "split(\"abc\", \"\")", "replace(\"aaa\", \"\", \"b\")", "to_number(\"1e999\")", "to_number(\" 1\")", "convert(1, \"\", \"\")"] {
         texts.push(("extras".into(), t.to_string()));
@@ -825,7 +847,7 @@ fn run_all(ctx: &Ctx) -> i32 {
     finish(
         ctx,
         "exploration",
-        "every built-in x every argument tuple of the boundary pool at every arity it accepts (var-args at 1..3); source texts: every string of length <= 3/4 over a 48-character alphabet, every token string of length <= 3/4 over a 44-token alphabet (spaced and joined), every tree of the parent x child and depth-3 representative families, the corpus with every single-token deletion / replacement / insertion, the nesting family (23 constructs at depth 1..64); JSON input documents incl. function objects with valid, truncated, non-lambda and non-string sources; serde-form wasm inputs with unparsable lambda bodies; every case through parse, AST conversion (with and without comments), evaluation in a session, value rendering / validation / JSON round trip, formatting at three widths, the four wasm entry points (native shim), in a crash-isolated worker with a 10 s cap; nesting family, JSON documents and all in-process crashers also through the real CLI (file, inline, -e, --format, -i, stdin); oracle: no panic / abort / hang, error spans inside the text they carry; distinct = distinct case requests",
+        "every built-in x every argument tuple of the boundary pool at every arity it accepts (var-args at 1..3); source texts: every string of length <= 3/4 over a 48-character alphabet, every token string of length <= 3/4 over a 44-token alphabet (spaced and joined), every tree of the parent x child and depth-3 representative families, the corpus with every single-token deletion / replacement / insertion, the nesting family (23 constructs at depth 1..64), long non-ASCII values in failing constructs and as arguments of every built-in, sessions that go on after a failed statement, assignments inside function bodies (parameter shape x body x capture x route to the call), functions with equal bodies and different captured name sets under every comparing operation; JSON input documents incl. function objects with valid, truncated, non-lambda and non-string sources; serde-form wasm inputs with unparsable lambda bodies; every case through parse, AST conversion (with and without comments), evaluation in a session, value rendering / validation / JSON round trip, formatting at three widths, the four wasm entry points (native shim), in a crash-isolated worker with a 10 s cap; nesting family, JSON documents and all in-process crashers also through the real CLI (file, inline, -e, --format, -i, stdin); oracle: no panic / abort / hang, error spans inside the text they carry; distinct = distinct case requests",
         true,
         None,
     )
